@@ -23,6 +23,8 @@ front A | back A | kids A | out A            front()/back(), begin/end + rbegin/
 obsall                                       every observer on every node (and on every pair of nodes while the forest is small)
 ```
 
+A line starting with `M` is executed on a second forest whose value type is move-only (`skip:copy` for the copying operations).
+
 Result: `ok a=<path> [b=<path>] [some|none] | <dump>` for mutating operations, `q …` for observers, `skip:<why>` when
 the operation is not applicable (forest full, too big, empty child list, excluded misuse), `bad-op` for malformed lines.
 Dump: every root, node = value, `+`/`!` (is `parent_` the address of the owner / `nullptr` for a root), children in parentheses.
@@ -347,6 +349,27 @@ def handle (s : St) (toks : List String) : St × String :=
         else (s, "bad-op")
   | _ => (s, "bad-op")
 
-def main : IO Unit := Proto.runState St.init handle
+/-- the members that copy a value do not exist for a value type that can only be moved -/
+def copyCmds : List String := ["cpc", "cpa", "mkl", "pushbv", "pushfv", "insv", "setv"]
+
+/-- Two forests: the plain one (`object<int>`) and, for lines starting with `M`, the instantiation with a move-only value type.
+The model is the same for both (a moved-from value keeps its number); only the copying operations are unavailable. -/
+def handle2 (st : St × St) (toks : List String) : (St × St) × String :=
+  match toks with
+  | ["reset"] => ((St.init, St.init), "ok")
+  | "M" :: rest =>
+    match rest with
+    | ["reset"] => (st, "bad-op")
+    | ["obsall"] => (st, obsAll st.2)
+    | cmd :: _ =>
+      if copyCmds.contains cmd then (st, "skip:copy") else
+        let (s2, r) := handle st.2 rest
+        ((st.1, s2), r)
+    | [] => (st, "bad-op")
+  | _ =>
+    let (s1, r) := handle st.1 toks
+    ((s1, st.2), r)
+
+def main : IO Unit := Proto.runState (St.init, St.init) handle2
 
 end Fcppt.C09.Drv
